@@ -1,3 +1,4 @@
+import Hm.C15Stored
 import Hm.C18Label
 import Hm.C16Select
 import Hm.C04Category
@@ -139,3 +140,5 @@ import Hm.Statements
 #print axioms forLabel_unknown
 #print axioms C18_charset_label_case
 #print axioms C18_charset_label_case'
+#print axioms C15_gzipStored_every_prefix_rejected
+#print axioms gunzipR_gzipStored
